@@ -20,7 +20,14 @@ Definition target_eqb (a b : target) : bool := kind_eqb (fst a) (fst b) && (snd 
 Inductive op :=
 | Update (k : kind) (key : N) (v : N)    (* get_or_create + one update through the handle *)
 | Advance (d : N)                        (* the clock moves d ticks *)
-| Observe (k : kind) (key : N).          (* what an exporter does per handle: generation, should_store, read *)
+| Observe (k : kind) (key : N)           (* what an exporter does per handle: generation, should_store, read *)
+(* an update IN FLIGHT through a handle: [Register] is the get_or_create that yields the handle
+   (creates generation 0 / no value if absent), [Complete] is the moment the update through that
+   handle is applied and the generation bumped (Generational::with_increment: f(&inner) then
+   gen.fetch_add) -- lost if the entry was deleted in between, because the handle then points at a
+   detached storage.  Histories used for correspondence put only Observe/Advance between the two. *)
+| Register (k : kind) (key : N)
+| Complete (k : kind) (key : N) (v : N).
 
 Inductive out :=
 | OUnit
@@ -72,6 +79,18 @@ Definition step (c : cfg) (s : st) (o : op) : st * out :=
       let '(g, vals) := match lookup t (reg s) with Some x => x | None => (0, []) end in
       ({| now := now s; reg := insert t (g + 1, v :: vals) (reg s); ents := ents s |}, OUnit)
   | Advance d => ({| now := now s + d; reg := reg s; ents := ents s |}, OUnit)
+  | Register k key =>
+      let t := (k, key) in
+      match lookup t (reg s) with
+      | Some _ => (s, OUnit)
+      | None => ({| now := now s; reg := insert t (0, []) (reg s); ents := ents s |}, OUnit)
+      end
+  | Complete k key v =>
+      let t := (k, key) in
+      match lookup t (reg s) with
+      | Some (g, vals) => ({| now := now s; reg := insert t (g + 1, v :: vals) (reg s); ents := ents s |}, OUnit)
+      | None => (s, OUnit)
+      end
   | Observe k key =>
       let t := (k, key) in
       match lookup t (reg s) with
